@@ -8,15 +8,23 @@ from vlib.core import sx, q
 PROP = "C07"
 MODE = "loader"
 PROPS_FILES = ["theories/Props/C07.v"]
-RULE = ("emitted files of a program family x {identity, every/sampled truncation length, single-bit flips, bursts <= 32 bits at "
-        "random offsets incl. header/section/trailer boundaries}; random byte strings; structural mutations of header fields, "
-        "const entries, opcodes, counts with the CRC recomputed (zlib.crc32, an independent oracle); crc32fast vs the Coq CRC on "
-        "random strings. non-trivial = distinct case judged ok (rejections of corrupted files and round-trips alike)")
+RULE = ("emitted files of a program family (every modelled kind of constant: typed scalars u8..u128/i8..i128/f32/f64, strings incl. "
+        "multi-byte, rationals, complex, bool, index, matrices of several kinds and shapes) and files laid out by CompileCtx::compile with "
+        "1..40 defined symbols x {identity: every decoded section and every decoded constant value compared with the Coq model's decoding "
+        "of the same bytes, model re-encoding = file, every/sampled truncation length, single-bit flips, bursts <= 32 bits at random offsets "
+        "incl. header/section/trailer boundaries}; random byte strings; structural mutations of header fields, type entries, const entries, "
+        "constant payload prefixes/bytes, symbol and dictionary entries, opcodes, counts with the CRC recomputed (zlib.crc32, an independent "
+        "oracle): model accept/reject, sections and constant-decoder outcome compared; crc32fast vs the Coq CRC on random strings. "
+        "non-trivial = distinct case judged ok (rejections of corrupted files and round-trips alike)")
 ASSUMPTIONS = [
-    "symbol and dictionary sections are HashMaps in the implementation; the Coq model decodes header, constant table entries and "
-    "instructions only; the other sections are covered by the implementation-level re-encode equality",
+    "symbol and dictionary sections are HashMaps in the implementation and ordered lists in the Coq model: they are compared as sorted "
+    "lists, and only when the ids in the file are pairwise distinct; the compiler itself never defines a symbol (define_symbol has no "
+    "caller), so files with symbols are produced by calling CompileCtx::define_symbol + compile from the harness (stream emitted-syms), "
+    "for which the byte-exact re-encoding is advisory (HashMap iteration order)",
+    "constants of kinds the model does not decode (sets, tables) are compared at the container level only (tag roundtrip-some-constants-opaque)",
     "a process abort or hang of the loader is observed by the driver (child restarted) and judged as a violation",
     "error kinds are compared only as CRC-level vs later (CrcMismatch/FileTooShort vs anything else)",
+    "disagreements between the model's and the implementation's accept/reject on non-emitted files are advisory (adv tags); none occurs on the unchanged tree",
 ]
 TRIVIAL_TAGS = []
 STALL = 20.0
@@ -42,19 +50,120 @@ PROGRAMS = [
     "z := 2 ^ 10 - 24",
     "b := [true false] || [false false]",
     "c := [1 2 3] > 2",
+    # every modelled kind of constant (typed scalars, strings incl. multi-byte, rationals, complex, bool, matrices)
+    "a<u8> := 200\nb<u16> := 60000\nc<u32> := 4000000000\nd<u64> := 123456789012\ne<u128> := 7",
+    "a<i8> := 100\nb<i16> := 30000\nc<i32> := 2000000000\nd<i64> := 123456789012\ne<i128> := 9",
+    "a<i8> := -5\nb<i16> := -300\nc<i32> := -70000\nd<i64> := -5000000000\ne<i128> := -1",
+    "a<f32> := 1.5\nb<f64> := 2.25\nc := -0.1\nd := 1e10",
+    "s := \"h\u00e9llo w\u00f6rld \u2713 \U0001d11e\"\nt := \"\"\nu := \"a\\\"b\"",
+    "q := 1/2\nr := -3/4\ns := 22/7\nt := 10/4",
+    "c := 1+2i\nd := 3.5-4.25i",
+    "a := true\nb := false\nc := a && b",
+    "m<[u8]:2,3> := [1 2 3; 4 5 6]\nn<[u16]:1,3> := [1 2 3]\no<[u32]:3,1> := [1; 2; 3]\np<[u64]:2,2> := [1 2; 3 4]\nq<[u128]:1,2> := [1 2]",
+    "m<[i8]:2,3> := [1 2 3; 4 5 6]\nn<[i16]:1,3> := [1 2 3]\no<[i32]:3,1> := [1; 2; 3]\np<[i64]:2,2> := [1 2; 3 4]\nq<[i128]:1,2> := [1 2]",
+    "m<[f32]:2,2> := [1.5 2.5; 3.5 4.5]\nn := [1.5 2.5 3.5 4.5 5.5; 6 7 8 9 10]\no := [1; 2; 3; 4; 5; 6; 7]",
+    "m := [\"a\" \"bcd\"; \"\u00e9\u2713\" \"\"]\nn := [true false; false true]\no := [1/2 3/4; 5/6 7/8]\np := [1+2i 3+4i]",
+    "x := [1 2 3]\ny := x[2]\nz := x[1..=2]",
+    "averyveryverylongvariablenamethatgoesonandonandonandonforeverandeverandthensome := 1\nanotherquitelongidentifierforgoodmeasure := averyveryverylongvariablenamethatgoesonandonandonandonforeverandeverandthensome + 1",
+]
+
+# files laid out by CompileCtx::compile after symbols were defined through its public API (define_symbol): the
+# compiler itself never calls it, so only these files have non-empty symbol and dictionary sections.
+# (source, [(name, register, mutable)...])
+_NAMES = ["a", "b", "c", "alpha", "beta", "gamma", "delta", "x1", "y2", "h\u00e9llo", "\u2713", "\U0001d11e", "temperature",
+          "a-rather-long-symbol-name-that-goes-on-and-on-and-on-and-on-and-on-and-on-and-on-and-on-and-on-and-on-and-on-and-on-and-on",
+          "n" * 300, "", "zeta/eta", "w"]
+SYM_PROGRAMS = [
+    ("x := 1", [("x", 0, False)]),
+    ("x := 1 + 2", [("x", 0, False), ("y", 1, True)]),
+    ("x := 10\ny := 20\nz := x * y + 3", [(n, i % 5, i % 3 == 0) for i, n in enumerate(_NAMES[:12])]),
+    ("s := \"hello\"\nm := [1 2; 3 4]", [(n, 7 * i, i % 2 == 1) for i, n in enumerate(_NAMES)]),
+    ("q := 1/2 + 3/4", [("sym%d" % i, i, i % 4 == 0) for i in range(40)]),
 ]
 
 
 def emitted_files():
-    cases = [dict(id="p%d" % i, impl=dict(src=p, hex=True)) for i, p in enumerate(PROGRAMS)]
+    """-> [(src, bytes, kind)] with kind 'emitted' (what the compiler wrote) or 'emitted-syms' (see SYM_PROGRAMS)"""
+    cases = [dict(id="p%d" % i, impl=dict(src=p, hex=True), kind="emitted") for i, p in enumerate(PROGRAMS)]
+    cases += [dict(id="s%d" % i, impl=dict(src=p, hex=True, defsyms=[[n, r, m] for (n, r, m) in syms]), kind="emitted-syms")
+              for i, (p, syms) in enumerate(SYM_PROGRAMS)]
     res = core.run_impl("bytecode", cases)
     out = []
     for c in cases:
         o = res.get(c["id"], "")
         p = core.parse_sx(o)
         if isinstance(p, list) and len(p) >= 9 and isinstance(p[2], list) and p[2][0] == "ok" and isinstance(p[8], str) and len(p[8]) > 2:
-            out.append((c["impl"]["src"], bytes.fromhex(p[8].strip('"'))))
+            out.append((c["impl"]["src"], bytes.fromhex(p[8].strip('"')), c["kind"]))
     return out
+
+
+HW = [4, 1, 2, 2, 4, 4, 4, 8, 4, 8, 4, 8, 8, 8, 8, 8, 8, 8, 8, 8, 8, 4]
+HO = [sum(HW[:i]) for i in range(len(HW))]
+HSZ = sum(HW)     # 129
+
+
+def header_of(payload):
+    return [int.from_bytes(payload[o:o + w], "little") for o, w in zip(HO, HW)]
+
+
+def section_fields(payload):
+    """(offset, width, name, interesting values) of the fields inside the sections of a well-formed file"""
+    h = header_of(payload)
+    (foff, toff, ccount, tbloff, tbllen, bloboff, bloblen, symlen, symoff, ioff, ilen, doff, dlen) = (
+        h[7], h[9], h[10], h[11], h[12], h[13], h[14], h[15], h[16], h[17], h[18], h[19], h[20])
+    B32 = [0, 1, 2, 3, 7, 255, 65536, 2 ** 31, 2 ** 32 - 1]
+    out = [(foff, 4, "feature-count", B32 + [len(payload)])]
+    pos = toff
+    tcount = int.from_bytes(payload[pos:pos + 4], "little")
+    out.append((pos, 4, "types-count", B32 + [tcount + 1, tcount - 1 if tcount else 5]))
+    pos += 4
+    for t in range(tcount):
+        blen = int.from_bytes(payload[pos + 8:pos + 12], "little")
+        out.append((pos, 2, "type-tag", [0, 1, 12, 15, 16, 14, 21, 32, 34, 36, 37, 42, 43, 45, 48, 49, 65535]))
+        out.append((pos + 2, 2, "type-reserved", [1, 65535]))
+        out.append((pos + 4, 4, "type-version", [0, 2, 2 ** 32 - 1]))
+        out.append((pos + 8, 4, "type-bytes-len", B32 + [blen + 1, max(0, blen - 1), len(payload) - pos - 12, len(payload) - pos - 11]))
+        pos += 12 + blen
+    for i in range(ccount):
+        e = tbloff + 24 * i
+        off = int.from_bytes(payload[e + 8:e + 16], "little"); ln = int.from_bytes(payload[e + 16:e + 24], "little")
+        out.append((e, 4, "const-type-id", [0, 1, 2, 3, tcount - 1, tcount, 2 ** 32 - 1]))
+        out.append((e + 4, 1, "const-enc", [0, 2, 255]))
+        out.append((e + 5, 1, "const-align", [0, 1, 2, 3, 4, 8, 16, 32, 255]))
+        out.append((e + 6, 1, "const-flags", [1, 255]))
+        out.append((e + 7, 1, "const-reserved", [1, 255]))
+        out.append((e + 8, 8, "const-offset", [0, off + 1, max(0, off - 1), off + 8, bloblen, bloblen - ln, bloblen - ln + 1, 2 ** 63, 2 ** 64 - 1, 2 ** 64 - ln]))
+        out.append((e + 16, 8, "const-length", [0, 1, ln + 1, max(0, ln - 1), 4, 8, 16, bloblen - off, bloblen - off + 1, 2 ** 64 - 1, 2 ** 64 - off, 2 ** 64 - 1 - off]))
+        # the payload: rows / cols / string length prefixes and raw bytes
+        b = bloboff + off
+        out.append((b, 4, "payload-word0", B32))
+        if ln >= 8:
+            out.append((b + 4, 4, "payload-word1", B32))
+        if ln >= 16:
+            out.append((b + 8, 8, "payload-denominator", [0, 1, 2, 2 ** 63, 2 ** 64 - 1]))
+        for k in range(min(ln, 24)):
+            out.append((b + k, 1, "payload-byte", [0, 1, 0x7f, 0x80, 0xc0, 0xe0, 0xed, 0xf4, 0xf5, 0xff]))
+    for i in range(symlen // 13):
+        e = symoff + 13 * i
+        out.append((e + 8, 1, "symbol-mutable", [0, 1, 2, 255]))
+        out.append((e, 8, "symbol-id", [0, 2 ** 64 - 1, int.from_bytes(payload[symoff:symoff + 8], "little")]))
+        out.append((e + 9, 4, "symbol-register", [0, 2 ** 32 - 1]))
+    pos = doff
+    while pos + 12 <= doff + dlen:
+        nl = int.from_bytes(payload[pos + 8:pos + 12], "little")
+        out.append((pos + 8, 4, "dict-name-len", B32 + [nl + 1, max(0, nl - 1), doff + dlen - pos - 12, doff + dlen - pos - 11]))
+        out.append((pos, 8, "dict-id", [0, 2 ** 64 - 1, int.from_bytes(payload[doff:doff + 8], "little")]))
+        for k in range(min(nl, 6)):
+            out.append((pos + 12 + k, 1, "dict-name-byte", [0, 0x7f, 0x80, 0xc0, 0xe0, 0xed, 0xf4, 0xf5, 0xff]))
+        pos += 12 + nl
+    # header lengths of the variable sections, relative to their true values
+    for fi, v in ((12, tbllen), (14, bloblen), (15, symlen), (18, ilen), (20, dlen)):
+        out.append((HO[fi], 8, "header-len-%d" % fi, [0, 1, v + 1, max(0, v - 1), v + 13, max(0, v - 13), 12, 13, 14, 24, len(payload) - 4]))
+    for fi in (7, 9, 11, 13, 16, 17, 19):
+        v = h[fi]
+        out.append((HO[fi], 8, "header-off-%d" % fi, [0, 1, v + 1, max(0, v - 1), HSZ, len(payload), len(payload) - 4, len(payload) - 3, len(payload) - 1]))
+    out.append((HO[10], 4, "header-const-count", [0, 1, ccount + 1, max(0, ccount - 1), 2 ** 32 - 1]))
+    return [(o, w, n, vs) for (o, w, n, vs) in out if 0 <= o and o + w <= len(payload)]
 
 
 def case(kind_sx, hexstr, tags, crc=False):
@@ -71,8 +180,10 @@ def with_crc(payload):
 def generate(tier, rng):
     allfiles = emitted_files()
     quick = tier == "quick"
-    for src, f in allfiles:
-        yield case(sx(["emitted", q(f.hex())]), f.hex(), dict(stream="emitted"))
+    for src, f, kind in allfiles:
+        yield case(sx([kind, q(f.hex())]), f.hex(), dict(stream=kind))
+    symfiles = [(s_, f) for (s_, f, k) in allfiles if k == "emitted-syms"]
+    allfiles = [(s_, f) for (s_, f, k) in allfiles]
     # corruption streams: quick uses the 6 smallest-to-median files, thorough all
     files = sorted(allfiles, key=lambda x: len(x[1]))[:6] if quick else allfiles
     # truncations
@@ -94,7 +205,7 @@ def generate(tier, rng):
     nb = 80 if quick else 3000
     for k, (src, f) in enumerate(files):
         nbits = len(f) * 8
-        hsz = 159
+        hsz = HSZ
         anchors = [0, hsz * 8 - 16, nbits - 48, nbits - 32, nbits - 16]
         for t in range(nb):
             w = rng.randint(2, 32)
@@ -137,7 +248,7 @@ def generate(tier, rng):
         nrand = 50 if quick else 1500
         for t in range(nrand):
             g = bytearray(payload)
-            pos = rng.randint(159, len(g) - 1)
+            pos = rng.randint(HSZ, len(g) - 1)
             w = rng.choice([1, 1, 2, 4, 8])
             v = rng.choice(boundary) & ((1 << (8 * w)) - 1)
             g[pos:pos + w] = v.to_bytes(w, "little")[: max(0, min(w, len(g) - pos))]
@@ -171,6 +282,27 @@ def generate(tier, rng):
                 g = bytearray(payload); g[o:o + w] = (v & ((1 << (8 * w)) - 1)).to_bytes(w, "little")
                 b = with_crc(bytes(g))
                 yield case(sx(["any", q(b.hex())]), b.hex(), dict(stream="struct-instr", field=name))
+    # section-aware mutations with recomputed CRC: every field of the type section, the constant table, the constant
+    # payloads (rows / cols / length prefixes, UTF-8 bytes, denominators), the symbol and dictionary entries and the header
+    # offsets/lengths, set to boundary values.  The model predicts accept/reject and the outcome of the constant decoder.
+    secfiles = (sorted(allfiles, key=lambda x: len(x[1]))[:4] + symfiles[:3] + allfiles[-14:-1:3]) if quick else allfiles
+    seen_f = set()
+    for k, (src, f) in enumerate(secfiles):
+        if f in seen_f:
+            continue
+        seen_f.add(f)
+        payload = f[:-4]
+        fields = section_fields(payload)
+        budget = 260 if quick else 6000
+        muts = [(o, w, name, v) for (o, w, name, vs) in fields for v in vs]
+        if len(muts) > budget:
+            muts = rng.sample(muts, budget)
+        for (o, w, name, v) in muts:
+            g = bytearray(payload); g[o:o + w] = (v & ((1 << (8 * w)) - 1)).to_bytes(w, "little")
+            if bytes(g) == payload:
+                continue
+            b = with_crc(bytes(g))
+            yield case(sx(["any", q(b.hex())]), b.hex(), dict(stream="struct-section", field=name))
     # crc32fast vs the model
     for t in range(100 if quick else 2000):
         n = rng.choice([0, 1, 2, 3, 4, 5, 7, 8, 9, 15, 16, 17, 31, 32, 33, 63, 64, 65]) if rng.random() < 0.5 else rng.randint(0, 400)
